@@ -2,7 +2,11 @@ package main
 
 import (
 	"fmt"
+	"os"
+	"path/filepath"
 	"time"
+
+	"github.com/scrapli/scrapligo/platform"
 
 	"github.com/scrapli/scrapligo/driver/generic"
 	"github.com/scrapli/scrapligo/driver/network"
@@ -159,6 +163,70 @@ func runC11System(cs *Case, c *c10Case, sink *logSink, li *logging.Instance) {
 	cs.Obs = "open:" + errClass(oerr)
 	cs.Nontrivial = true
 	if m := sink.containsAny(c.Password, c.Passphrase); m != "" {
+		cs.Oracle = m
+		cs.Sig = "C11:secret-logged"
+	}
+	emit(cs)
+}
+
+// runC11Platform: a driver built from a platform definition whose on-open sequence writes a secret
+// marked redacted (oracle only).
+func runC11Platform(id string, cs *Case, c *c10Case, sink *logSink, li *logging.Instance) {
+	quoted := c.OnAuth < 2
+	net := c.OnAuth != 3
+	val := c.Secret
+	if quoted {
+		val = "'" + c.Secret + "'"
+	}
+	section := "on-open"
+	dtype := "generic"
+	levels := ""
+	if net {
+		section = "network-on-open"
+		dtype = "network"
+		levels = "  privilege-levels:\n    exec:\n      name: 'exec'\n      pattern: '(?im)^[a-z0-9.\\-@/:]{1,32}#$'\n      previous-priv:\n      deescalate:\n      escalate:\n      escalate-auth: false\n      escalate-prompt:\n  default-desired-privilege-level: 'exec'\n"
+	}
+	yml := "---\nplatform-type: 'c11'\ndefault:\n  driver-type: '" + dtype + "'\n" + levels +
+		"  " + section + ":\n    - operation: 'channel.write'\n      input: " + val + "\n      redacted: true\n    - operation: 'channel.return'\n"
+	f := filepath.Join(workDir(), id+"-platform.yaml")
+	if err := os.WriteFile(f, []byte(yml), 0o644); err != nil {
+		cs.Oracle = "harness: " + err.Error()
+		emit(cs)
+		return
+	}
+	defer os.Remove(f)
+	cs.Kind += map[bool]string{true: "/string", false: "/not-a-string"}[quoted] + "/" + dtype
+	dev := &sim.CLIDevice{Prompt: []byte("router#"), Banner: sim.Atoms([]byte("router#")), Echo: sim.EchoNone}
+	tr := sim.NewTransport(dev)
+	p, err := platform.NewPlatform(f, "sim", options.WithCustomTransport(tr), options.WithReadDelay(20*time.Microsecond),
+		options.WithTimeoutOps(300*time.Millisecond), options.WithLogger(li), options.WithChannelLog(sink))
+	if err != nil {
+		cs.Obs = "platform-error"
+		// (a definition that is refused when it is loaded is fine too, as long as nothing was logged)
+	} else {
+		var oerr error
+		if net {
+			nd, e := p.GetNetworkDriver()
+			if e == nil {
+				oerr = nd.Open()
+				_ = nd.Close()
+			} else {
+				oerr = e
+			}
+		} else {
+			gd, e := p.GetGenericDriver()
+			if e == nil {
+				oerr = gd.Open()
+				_ = gd.Close()
+			} else {
+				oerr = e
+			}
+		}
+		cs.Obs = "open:" + errClass(oerr)
+	}
+	time.Sleep(2 * time.Millisecond)
+	cs.Nontrivial = true
+	if m := sink.containsAny(c.Secret); m != "" {
 		cs.Oracle = m
 		cs.Sig = "C11:secret-logged"
 	}
